@@ -14,24 +14,29 @@ pub struct FunctionDefine { pub name: Identifier, pub match_arms: Vec<FunctionMa
 pub struct FunctionDefinition { pub code: FunctionDefine, pub input: Vec<u64>, pub id: u64 }
 pub struct Value { pub id: u64 }
 pub struct Environment { pub id: u64 }
+pub uninterp spec fn empty_env() -> Environment;
 impl Environment {
   #[verifier::external_body]
-  pub fn new() -> (e: Environment) { unimplemented!() }
+  pub fn new() -> (e: Environment) ensures e == empty_env(), { unimplemented!() }
 }
 pub enum FunctionCallStep { Return(Value), TailCall(Vec<Value>) }
 
 pub enum Event { Test(Pattern), Eval(Expression) }
 pub struct Interpreter { pub log: Ghost<Seq<Event>> }
 
-pub uninterp spec fn pm(pattern: Pattern, args: Seq<Value>) -> Option<bool>;      // None = the matcher reports an error
-pub uninterp spec fn bind(pattern: Pattern, args: Seq<Value>) -> Environment;     // the bindings a match leaves in `env`
+// the matcher reads and extends the environment it is given (a name bound earlier turns a pattern variable into an equality test)
+pub uninterp spec fn pmf(pattern: Pattern, args: Seq<Value>, env: Environment) -> Option<bool>;      // None = the matcher reports an error
+pub uninterp spec fn bindf(pattern: Pattern, args: Seq<Value>, env: Environment) -> Environment;     // the bindings a match leaves in `env`
+// what the property means by "the pattern matches the arguments": matching in a FRESH environment
+pub open spec fn pm(pattern: Pattern, args: Seq<Value>) -> Option<bool> { pmf(pattern, args, empty_env()) }
+pub open spec fn bind(pattern: Pattern, args: Seq<Value>) -> Environment { bindf(pattern, args, empty_env()) }
 pub uninterp spec fn ev(e: Expression, env: Option<&Environment>) -> Option<Value>;
 pub uninterp spec fn dv(v: Value) -> Value;
 pub uninterp spec fn co(v: Value) -> Option<Value>;
 
 #[verifier::external_body]
 pub fn pattern_matches_arguments(pattern: &Pattern, args: &Vec<Value>, env: &mut Environment, p: &mut Interpreter) -> (o: Option<bool>)
-  ensures final(p).log@ == old(p).log@.push(Event::Test(*pattern)), o == pm(*pattern, args@), *final(env) == bind(*pattern, args@),
+  ensures final(p).log@ == old(p).log@.push(Event::Test(*pattern)), o == pmf(*pattern, args@, *old(env)), *final(env) == bindf(*pattern, args@, *old(env)),
 { unimplemented!() }
 #[verifier::external_body]
 pub fn expression(e: &Expression, env: Option<&Environment>, p: &mut Interpreter) -> (o: Option<Value>)
